@@ -126,10 +126,10 @@ CLAIMS["C13"] = dict(text="bounded symbolic model checking + CrossHair: (1) for 
                     "per-bin parameter arrays, the real unrolled program (TDMProgram.unroll on N modes) and an explicit loop with a fresh mode per pulse "
                     "are run on the real Gaussian backend from an ARBITRARY symbolic state of the register with shared symbolic outcomes: every "
                     "measurement is handed the same (mean, covariance) -- equal conditionals at every step, hence equal joint distribution -- and the "
-                    "unmeasured pulses end in the same state; roll() restores circuit and register by identity; (2) every call sequence of length <=3 "
+                    "unmeasured pulses end in the same state, and so does the real space-unrolled circuit (space_unroll, one mode per pulse); roll() restores circuit and register by identity; (2) every call sequence of length <=3 "
                     "over unroll(1|2)/space_unroll/roll leaves the expected form; (3) CrossHair: reshape_samples puts the outcome of pulse (shot, band, "
                     "bin) at that entry for symbolic N<=4, T<=4, shots<=3 (one band) and two bands of <=3", design_ref="5/C13",
-                    note=NOTE + "; gate parameters are assumed non-zero in the loop harness (the p[0]==0 identity shortcut of Gate.apply is checked in C01/C02); outside: multi-band loop meaning, space_unroll state equality, T>4, crop/delay arithmetic")
+                    note=NOTE + "; gate parameters are assumed non-zero in the loop harness (the p[0]==0 identity shortcut of Gate.apply is checked in C01/C02); outside: multi-band loop meaning, T>4, crop/delay arithmetic")
 CLAIMS["C14"] = dict(text="bounded symbolic model checking with a semantic oracle: for every template (each interpretable operation family, zero-valued and negative literals, post-selection on the value zero, plain and "
                     "daggered, both target orders, numeric literals, free parameters, parameter expressions, measured-parameter expressions, post-"
                     "selected homodyne/heterodyne, channels, preparations, a mixed sequence) x {Blackbird, XIR, XIR with declarations}, the real writer, "
